@@ -426,7 +426,7 @@ pub fn run(tier: Tier, seed: u64) -> Report {
         return rep;
     }
     let max = tier.pick(12, 40);
-    let r = engine::explore("C19", "fixture", seed, tier.pick(1500, 40_000), || xcase(fixtures.clone(), max), check);
+    let r = engine::explore("C19", "fixture", seed, tier.pick(5000, 40_000), || xcase(fixtures.clone(), max), check);
     rep.absorb("generated-continuations", r);
     rep
 }
